@@ -19,7 +19,7 @@ META = {
                   "accessor. Holds for all inputs, not samples.",
     "level_note": "Assumes float = real (A1), numba compiles Python semantics (A5), sympy normal form as decision "
                   "procedure; 'constant along computed trajectories up to integration tolerance' is NOT decided "
-                  "(needs T1 + integrator accuracy). Functions are loaded from the working tree on every run.",
+                  "(needs T1 + integrator accuracy). Functions are loaded from the working tree on every run. Round 3: the field is also checked on the coordinate planes / axes with exact zeros (special-case branches), orbit.energy as a history on a real service instance.",
     "technique": "contracts as exact identities over symbolic execution of the real functions (sympy normal form modulo sqrt relations)",
 }
 
